@@ -203,7 +203,7 @@ func (w *World) Run(x *simkit.Ctx) {
 func genScript(r *simkit.Rng, net *simnode.Net) string {
 	var parts []string
 	for i := r.Range(1, 4); i > 0; i-- {
-		switch r.Pick(4, 2, 3, 2, 1, 2) {
+		switch r.Pick(8, 4, 6, 4, 2, 4, 1) {
 		case 0:
 			parts = append(parts, fmt.Sprintf("set k%d v%d", r.Intn(4), r.Intn(1000)))
 		case 1:
@@ -217,6 +217,10 @@ func genScript(r *simkit.Rng, net *simnode.Net) string {
 			parts = append(parts, "fee "+new(big.Int).Mul(unit, big.NewInt(int64(r.Intn(20)))).String())
 		case 5:
 			parts = append(parts, "fail")
+		case 6:
+			// a VM *system* error: the producer drops the tx after it was (partly) executed and its fee
+			// computed; it never enters a block
+			parts = append(parts, "sysfail")
 		}
 	}
 	if r.Chance(1, 4) {
